@@ -308,10 +308,13 @@ class ParseNeighbor(Section):
         Section.__init__(self, parser, scope, error)
         self._neighbors: list[bytes] = []
         self.neighbors: dict[str, Neighbor] = {}
+        # the neighbors still to be bound to their RIB, with the family of a multi-session one
+        self._attach: list[tuple[Neighbor, FamilyTuple | None]] = []
 
     def clear(self) -> None:
         self._neighbors = []
         self.neighbors = {}
+        self._attach = []
 
     def pre(self) -> bool:
         return self.parse(self.name, 'peer-address')
@@ -535,14 +538,26 @@ class ParseNeighbor(Section):
             # remove_self may well have side effects on route
             neighbor.routes.append(neighbor.resolve_self(route))
 
-    def _init_neighbor(self, neighbor: Neighbor, local: dict[str, Any]) -> None:
+    def attach_ribs(self) -> None:
+        # Binding a neighbor to its RIB - the live one when a peer of that name is running - and
+        # queuing its routes changes what the peers are sent: it is done once the whole
+        # configuration has been accepted (a file which fails half way must not announce anything)
+        for neighbor, family in self._attach:
+            neighbor.make_rib()
+            if family is not None:
+                neighbor.rib.outgoing.families = {family}
+            families = neighbor.families()
+            for route in neighbor.routes:
+                # remove_self may well have side effects on route
+                route = neighbor.resolve_self(route)
+                if route.nlri.family().afi_safi() in families:
+                    # This add the family to neighbor.families()
+                    neighbor.rib.outgoing.add_to_rib_watchdog(route)
+        self._attach = []
+
+    def _init_neighbor(self, neighbor: Neighbor, local: dict[str, Any], family: FamilyTuple | None = None) -> None:
         families = neighbor.families()
-        for route in neighbor.routes:
-            # remove_self may well have side effects on route
-            route = neighbor.resolve_self(route)
-            if route.nlri.family().afi_safi() in families:
-                # This add the family to neighbor.families()
-                neighbor.rib.outgoing.add_to_rib_watchdog(route)
+        self._attach.append((neighbor, family))
 
         for message in local.get('operational', {}).get('routes', []):
             if message.family().afi_safi() in families:
@@ -627,11 +642,8 @@ class ParseNeighbor(Section):
         if neighbor.capability.multi_session.is_enabled() and len(neighbor.families()) > 1:
             for family in neighbor.families():
                 m_neighbor = deepcopy(neighbor)
-                m_neighbor.make_rib()
-                m_neighbor.rib.outgoing.families = {family}
-                self._init_neighbor(m_neighbor, local)
+                self._init_neighbor(m_neighbor, local, family)
         else:
-            neighbor.make_rib()
             self._init_neighbor(neighbor, local)
 
         local.clear()
